@@ -53,6 +53,11 @@ struct SdoDict {
         // entries far away in the index space (profile areas): the lookup has to order keys that differ by more than 8000h in the index
         { ObjSpec o; o.idx = 0x2300; o.sub = 0; o.flags = CO_OBJ_____RW; o.type = T_USER; o.val = 0x06060000u + (uint32_t)p.c("usercode", 0x10); specs.push_back(o); objs.push_back({0x2300, 0, 3, 4, true, true, false}); }
         addInt(0x6000, 0, 4, CO_OBJ_____RW, 0x60006000); addInt(0xA100, 0, 2, CO_OBJ_____RW, 0xA100); addInt(0xBFFF, 0, 1, CO_OBJ_____RW, 0xBF);   // objs 23..25
+        // application-defined entries whose type functions call back into the stack (world.hpp, T_APP): 2500h:1 reads its sibling 2500h:2 inside Read and Write (objs 26, 27);
+        // 'appcmd' plans (C04, C05): 2501h 'shut down' (its Write calls CONmtSetMode(STOP)), 2502h 'service lock' (its Write invalidates 1200h:1) - dictionary only, addressed by raw requests
+        { ObjSpec o; o.idx = 0x2500; o.sub = 1; o.flags = CO_OBJ_____RW; o.type = T_APP; o.val = 0xA1B2C3D4; o.aux = APP_NESTED_READ; specs.push_back(o); objs.push_back({0x2500, 1, 0, 4, true, true, false}); }
+        addInt(0x2500, 2, 1, CO_OBJ_____RW, 0x5A); add_u8(specs, 0x2500, 0, CO_OBJ_D___R_, 2);
+        if (p.c("appcmd", 0)) { ObjSpec o; o.idx = 0x2501; o.sub = 0; o.flags = CO_OBJ_____RW; o.type = T_APP; o.val = 1; o.aux = APP_MODE_STOP; specs.push_back(o); o.idx = 0x2502; o.aux = APP_LOCK_SDO; o.val = 2; specs.push_back(o); }
     }
     const SdoObj *find(uint16_t idx, uint8_t sub) const { for (auto &o : objs) if (o.idx == idx && o.sub == sub) return &o; return nullptr; }
     bool hasIndex(uint16_t idx) const { for (auto &s : specs) if (s.idx == idx) return true; return false; }
